@@ -133,6 +133,55 @@ def run(ctx):
 
     for case in ctx.cases("fmt", ctx.params.get("n_fmt", 400)):
         ctx.run_case(case, one)
+    # the bytes a *table* is written with (AuxData object -> save), across
+    # several saves with in-place edits of the value through a reference
+    # the caller kept: every save writes the encoding of the value as it is
+    def table_path(case):
+        from .. import irio
+        rnd = case.rnd
+        pool = auxgen.Pool(gtirb, rnd)
+        for _ in range(40):
+            t = auxgen.gen_type(rnd, rnd.choice([1, 2, 3]))
+            if t[0] in ("sequence", "set", "mapping"):
+                break
+        else:
+            return
+        v = auxgen.gen_value(rnd, t, pool)
+        ir = gtirb.IR()
+        holder = ir if rnd.random() < 0.5 else gtirb.Module(name="m", ir=ir)
+        holder.aux_data["t"] = gtirb.AuxData(v, reftypes.show(t))
+        ctx.count("cases")
+        case.ops = [{"type": reftypes.show(t)}]
+        for rnd_no in range(rnd.randint(2, 4)):
+            msg = irio.parse_ir_message(gtirb, irio.save(ir))
+            h = msg if holder is ir else msg.modules[0]
+            data = bytes(h.aux_data["t"].data)
+            ctx.count("table_path:saves")
+            try:
+                n, pos = refcodec.decode(data, t)
+                ok = pos == len(data) and refcodec.norm(n) == refcodec.norm(
+                    refcodec.neutral(v, t))
+            except refcodec.RefError:
+                ok = False
+            if not ok:
+                raise Discrepancy(
+                    "C08", "table-bytes-not-the-current-value",
+                    "save number %d wrote a %s table whose bytes are not "
+                    "the encoding of the value the table holds now: %s"
+                    % (rnd_no + 1, reftypes.show(t), data.hex()[:80]), {})
+            try:
+                if t[0] == "sequence":
+                    v.append(auxgen.gen_value(rnd, t[1][0], pool))
+                elif t[0] == "set":
+                    v.add(auxgen.gen_value(rnd, t[1][0], pool, True))
+                else:
+                    v[auxgen.gen_value(rnd, t[1][0], pool, True)] = \
+                        auxgen.gen_value(rnd, t[1][1], pool)
+            except TypeError:
+                break
+        ctx.seen("nontrivial", ("table", reftypes.show(t), case.index))
+    for case in ctx.cases("table", max(40, ctx.params.get("n_fmt", 400) // 10)):
+        ctx.run_case(case, table_path)
     for case in ctx.cases("cxx", 1):
         ctx.run_case(case, lambda c: cxx_tables(ctx, mon, gtirb))
     mon.close()
